@@ -682,6 +682,16 @@ func (e *Engine) ghostCall(env *Env, x ECall) (Val, bool) {
 			}
 			return VBool{and(parts...)}, true
 		}
+	case "hassuffix": // hassuffix(s, "literal"): the string ends with the literal
+		sv, ok := env.eval(x.Args[0]).(VStr)
+		lit, ok2 := x.Args[1].(EStr)
+		if ok && ok2 {
+			parts := []string{le(fmt.Sprint(len(lit.V)), sv.Len)}
+			for i := 0; i < len(lit.V); i++ {
+				parts = append(parts, eq(strAt(sv, plus(minus(sv.Len, fmt.Sprint(len(lit.V))), fmt.Sprint(i))), fmt.Sprint(lit.V[i])))
+			}
+			return VBool{and(parts...)}, true
+		}
 	case "typeid": // typeid("pkg.T"): the type tag interface values of dynamic type T carry (compare with typeof(v))
 		if lit, ok := x.Args[0].(EStr); ok {
 			t := e.lookupType(lit.V)
